@@ -1053,7 +1053,10 @@ pub fn run_c09(args: &Args, seed: u64, tier: &str, report: &Report) -> String {
             let Some((fen, moves, p)) = random_position(&mut rng, &roots, &mut l) else { continue };
             let men = p.b.iter().flatten().count();
             let queens = p.b.iter().flatten().filter(|pc| pc.k == Kind::Q).count();
-            let depth = if queens >= 8 { 1 + rng.below(2) as u8 } else if men <= 6 { 8 + rng.below(5) as u8 } else { 6 + rng.below(4) as u8 };
+            if queens >= 8 {
+                continue; // measured-heavy roots are enumerated separately above, with a bounded poll count
+            }
+            let depth = if men <= 6 { 8 + rng.below(5) as u8 } else { 6 + rng.below(4) as u8 };
             let warm = match rng.below(3) {
                 0 => vec![],
                 1 => {
